@@ -16,8 +16,9 @@ def el(cs, b0, fg, bg, eff):
 class Prop(PropBase):
     ID = "C01"
     LEAN_MODULES = ["Tpp.Props.C01"]
-    REQUIRED = ["Tpp.Props.C01." + n for n in ("C01_rendering", "C01_rendering_fresh", "C01_step_write", "C01_wellformed")] + \
-               ["Tpp.agree_run", "Tpp.run_log", "Tpp.sgr_diff", "Tpp.diffParams_ne_nil", "Tpp.feed_changeCharset", "Tpp.feed_text"]
+    REQUIRED = ["Tpp.Props.C01." + n for n in ("C01_rendering", "C01_rendering_fresh", "C01_step_write", "C01_wellformed",
+                                                "C01_rendering_any_size", "C01_rendering_readme")] + \
+               ["Tpp.agree_run", "Tpp.run_log", "Tpp.agreeRend_run", "Tpp.feed_moveCursor_any", "Tpp.sgr_diff", "Tpp.diffParams_ne_nil", "Tpp.feed_changeCharset", "Tpp.feed_text"]
     RULE = ("exhaustive: every ordered pair (previous attribute, next attribute) over 24 effect combinations x "
             "foreground x background alphabets (3 colours quick, 7 thorough), from a known and from an unknown rendition; "
             "all 19x19 ordered charset pairs x both unicode_in_all_charsets values; random histories of element/string "
